@@ -328,7 +328,7 @@ pub fn cells(family: &str) -> Vec<Cell>
 				}
 			}
 		}
-		"initialisation" | "assignment" | "argument" | "return" | "constant" | "array element" | "struct member" | "index" | "index in assignment target" | "index in operand" | "index in condition" | "index in return value" =>
+		"initialisation" | "assignment" | "element assignment" | "matrix element assignment" | "element assignment through a slice pointer" | "member assignment" | "argument" | "return" | "constant" | "array element" | "struct member" | "index" | "index in assignment target" | "index in operand" | "index in condition" | "index in return value" =>
 		{
 			for target in PRIMS
 			{
@@ -341,6 +341,24 @@ pub fn cells(family: &str) -> Vec<Cell>
 					{
 						"initialisation" => (function(&format!("\tvar r: {target} = {e};\n")), vec![500, 504, 507, 531, 532, 533]),
 						"assignment" => (function(&format!("\tv_{target} = {e};\n")), vec![504, 500, 507, 531, 532, 533]),
+						// assignments whose target has access steps: the value must have the type of
+						// the element or member
+						"element assignment" => (
+							function(&format!("\tvar el: [2]{target} = [v_{target}, v_{target}];\n\tel[1] = {e};\n")),
+							vec![504, 500, 507, 531, 532, 533],
+						),
+						"matrix element assignment" => (
+							function(&format!("\tvar mx: [2][2]{target} = [[v_{target}, v_{target}], [v_{target}, v_{target}]];\n\tmx[1][0] = {e};\n")),
+							vec![504, 500, 507, 531, 532, 533],
+						),
+						"element assignment through a slice pointer" => (
+							format!("{PRELUDE}fn f(sl: &[]{target})\n{{\n{}{}}}\n", locals(), wrap_in_context(&format!("\tsl[1] = {e};\n"), CONTEXT.with(|c| c.get()))),
+							vec![504, 500, 507, 531, 532, 533],
+						),
+						"member assignment" => (
+							format!("{PRELUDE}struct Q\n{{\n\tx: {target},\n}}\nfn f()\n{{\n{}{}}}\n", locals(), wrap_in_context(&format!("\tvar q: Q = Q {{ x: v_{target} }};\n\tq.x = {e};\n"), CONTEXT.with(|c| c.get()))),
+							vec![504, 500, 507, 531, 532, 533],
+						),
 						"argument" => (
 							format!("{PRELUDE}fn g(x: {target})\n{{\n}}\nfn f()\n{{\n{}\tg({e});\n}}\n", locals()),
 							vec![512, 513, 500, 504],
@@ -429,13 +447,17 @@ fn leak(s: &str) -> &'static str
 	FAMILIES.iter().find(|f| **f == s).copied().unwrap_or("?")
 }
 
-pub const FAMILIES: [&str; 18] = [
+pub const FAMILIES: [&str; 22] = [
 	"binary",
 	"comparison",
 	"unary",
 	"cast",
 	"initialisation",
 	"assignment",
+	"element assignment",
+	"matrix element assignment",
+	"element assignment through a slice pointer",
+	"member assignment",
 	"argument",
 	"return",
 	"constant",
